@@ -20,7 +20,8 @@ height), initial_amp_block := block height, future_amp/future_amp_block := the r
 direction tables of swap, simulation and reverse simulation are permutations and agree (shared with C14). Solvency,
 D-per-LP monotonicity and there-and-back are numerical and not decided. A4: the operator tree of compute_amp_factor's
 interpolation is initial +/- (|target-initial| * (current-start)) / (stop-start), product before division, range ordered per
-branch (shape only; the value is not evaluated). The shared pool clauses V1 (pending fees excluded wherever pool balances are
+branch (shape only; the value is not evaluated). A5: deposit wiring -- mint helper operands in pool order, D(pool) and
+D(pool_i + deposit_i), mint = supply*(d1-d0)/d0, compute_d symmetric in its three reserves. The shared pool clauses V1 (pending fees excluded wherever pool balances are
 read), V3 (funds validated before pricing, deposits excluded/pulled), V4 (minimum liquidity locked in the pool on the
 first deposit, nothing but Mint/Burn sent to the LP token) and V5 (floor-family rounding only) are decided for the 3-pool
 exactly as for the pair under C01.
@@ -38,6 +39,7 @@ def run(ctx):
     check_direct_withdraw(ctx, model, "C04-V4", "stableswap_3pool::contract::execute", r"^stableswap_3pool::commands::withdraw_liquidity$", "stableswap_3pool::state::TRIO_INFO", ("liquidity_token", "#NativeToken", "denom"))
     check_hook_authorisation(ctx, model, rule="C04-V4", only={"stableswap_3pool"})
     check_interpolation_wiring(ctx, model)
+    check_deposit_wiring(ctx, model)
     v = ctx.view(UC, "C04-A1")
     if v is None:
         return
@@ -156,3 +158,60 @@ def check_interpolation_wiring(ctx, model):
         ok = len(got) == 1 and got[0][1] == want[name]
         ctx.ob("C04-A4", "%s|ramp-%s|multiply-before-divide" % (AMP, "up" if name == "add" else "down"), ok,
                "returned value %s (expected %s)" % ([g[1] for g in got], want[name]), v.where(got[0][0]) if got else v.where())
+
+
+CURVE = "stableswap_3pool::stableswap_math::curve::StableSwap"
+PL3 = "stableswap_3pool::commands::provide_liquidity"
+
+
+def check_deposit_wiring(ctx, model):
+    """A5: the deposit path of the three-asset pool. provide_liquidity hands the mint helper (deposit_0..2, pool_0..2,
+    total share) with deposit_i the amount found for pools[i]'s asset and pool_i = pools[i].amount; the helper computes
+    D(pool) and D(pool_i + deposit_i) (same index) and mints supply*(d1-d0)/d0; compute_d uses its three reserves
+    symmetrically."""
+    from .stablemath import check_mint_helper, check_symmetric
+    from ..guards import resolve
+    v = ctx.view(PL3, "C04-A5")
+    if v is not None:
+        calls = v.calls_to(r"StableSwap::compute_mint_amount_for_deposit$")
+        if not calls:
+            ctx.missing("C04-A5", "compute_mint_amount_for_deposit call in provide_liquidity")
+        for b, t in calls:
+            pools = []
+            for a in t["args"][4:7]:
+                os_ = v.origins_of_operand(a, at=v.at_term(b))
+                idx = {o.proj[0] for o in os_ if o.kind == "call" and o.a.endswith("query_pools") and len(o.proj) == 2 and o.proj[1] == "amount"}
+                pools.append(sorted(idx))
+            deps_ = []
+            for a in t["args"][1:4]:
+                # deposit_i = assets.iter().find(|a| a.info.equal(&pools[i].info)).map(|a| a.amount)
+                found = set()
+                for o in v.origins_of_operand(a, at=v.at_term(b)):
+                    c = call_of(v, o)
+                    if not c or not mname(c[1]).endswith("Option::map"):
+                        found.add("?")
+                        continue
+                    for fo in v.origins_of_operand(c[1]["args"][0], at=v.at_term(c[0])):
+                        fc = call_of(v, fo)
+                        if not fc or not mname(fc[1]).endswith("Iterator>::find"):
+                            found.add("?")
+                            continue
+                        for co in v.origins_of_operand(fc[1]["args"][1], at=v.at_term(fc[0])):
+                            if co.kind == "closure" and co.a in model.fnsrc:
+                                cv = model.view(co.a)
+                                chain = ((v.path, fc[0], "closure"),)
+                                for xb, xt in cv.calls_to(r"AssetInfo::equal$"):
+                                    for arg in xt["args"]:
+                                        for r in resolve(model, chain, cv, cv.origins_of_operand(arg, at=cv.at_term(xb))):
+                                            if r.kind == "call" and r.a.endswith("query_pools") and r.proj and r.proj[-1] == "info":
+                                                found.add(r.proj[0])
+                deps_.append(sorted(found))
+            want = [["[0]"], ["[1]"], ["[2]"]]
+            ctx.ob("C04-A5", "%s|mint-helper-operands-in-pool-order" % PL3, pools == want and deps_ == want,
+                   "pool amounts taken from pools%s, deposits matched against pools%s (both must be [0],[1],[2] in order)" % (pools, deps_), v.where(b))
+    h = ctx.view(CURVE + "::compute_mint_amount_for_deposit", "C04-A5")
+    if h is not None:
+        check_mint_helper(ctx, "C04-A5", h, r"StableSwap::compute_d$", dep=(2, 3, 4), pool=(5, 6, 7), supply=8, key=CURVE + "::compute_mint_amount_for_deposit")
+    w = ctx.view(CURVE + "::compute_d", "C04-A5")
+    if w is not None:
+        check_symmetric(ctx, "C04-A5", w, (2, 3, 4), CURVE + "::compute_d")
